@@ -15,7 +15,7 @@ CONSTANTS
   TreeIds = {4}
   SparseIds = {1, 4}
   XP = "respect"
-  Strict = TRUE
+  Strict = "F9"
   Emit = FALSE
 INVARIANTS Inv_C27
 VIEW View
